@@ -7,6 +7,8 @@ import EAO.Driver.Slp
 import EAO.Driver.Scaled
 import EAO.Driver.CHP
 import EAO.Driver.Periodic
+import EAO.Driver.Split
+import EAO.Driver.State
 /-!
 Line-protocol driver: one JSON request per line on stdin, one JSON response per line on stdout.
 `{"ok": …}` or `{"err": "<class>"}`.  Unknown or ill-formed requests are answered with
@@ -16,7 +18,7 @@ operations it knows.
 open Lean EAO EAO.Driver
 
 def handlers : List (String → Json → Option (Except String Json)) :=
-  [handleCore, handleGrid, handleOrderBook, handleContract, handleStorage, handleSlp, handleCHP, handleScaled, handlePeriodic]
+  [handleCore, handleGrid, handleOrderBook, handleContract, handleStorage, handleSlp, handleCHP, handleScaled, handlePeriodic, handleSplit, handleState]
 
 def handle (j : Json) : Except String Json := do
   let op ← field j "op" Json.getStr?
